@@ -435,3 +435,198 @@ def selftest():
     assert encode(parse("A:9"), True).tones == frozenset([0, 4, 7, 10, 2])
     assert encode(parse("A:9"), False).tones == frozenset([0, 4, 7, 10])
     assert len(SHORTHANDS) == 26
+
+
+# =========================================================================== interval-level model (chord.evaluate)
+# Written from the module docstring (rule descriptions), the function docstrings (vocabularies, "-1 if the
+# comparison is out of gamut"), weighted_accuracy's docstring and evaluate()'s documented pipeline:
+#   1. the estimate is cropped / padded with the no-chord label N to the span of the reference,
+#   2. both annotations are cut at the union of their boundaries (common refinement),
+#   3. every rule compares the two labels of each piece: 1 match, 0 mismatch, -1 reference outside the vocabulary,
+#   4. score = duration-weighted mean of the comparisons over the comparable pieces; 0 by convention if none,
+#   5. over/under-segmentation = 1 - directional Hamming distance (Harte 2010) between the annotations after
+#      merging consecutive intervals that carry the same chord (same root, bitmap and bass with extended chords
+#      reduced); seg = min of the two.
+# Details the documentation leaves open are modelled AS CODED and listed in the adapter's notes:
+#   * X as an *estimated* label: compared through its reserved encoding (root -1, bitmap -1): equal roots with N/X
+#     references; for mirex it behaves as if it contained every pitch class;
+#   * mirex ignores references with one or two tones (code comment), N-N is a match;
+#   * thirds looks at the minor-third position only (sus chords count as "not minor");
+#   * majmin's triad = semitones 0-7 of the encoded bitmap (bass included);
+#   * *_inv vocabularies: the "bass must be a chord tone" restriction has no effect in the library (known finding
+#     F22): the *_inv rules are modelled with the vocabulary of their plain rule.
+from fractions import Fraction as _Fr
+
+from mc.spec.beat import Undefined  # noqa: E402  (the one Undefined class shared by all reference models)
+
+EVAL_KEYS = ("thirds", "thirds_inv", "triads", "triads_inv", "tetrads", "tetrads_inv", "root", "mirex", "majmin",
+             "majmin_inv", "sevenths", "sevenths_inv", "underseg", "overseg", "seg")
+RULE_KEYS = EVAL_KEYS[:12]
+NO_CHORD = "N"
+
+_ENC3 = {}
+
+
+def enc3(label, fold=False):
+    """(root, bitmap, bass) of a label string as the comparison rules see it; Undefined if it has no encoding."""
+    key = (label, fold)
+    r = _ENC3.get(key)
+    if r is None:
+        lab = parse(label)
+        if lab is None:
+            raise Undefined("label not grammatical")
+        e = encode(lab, fold, False)
+        if e.status == "ok":
+            if e.dontcare:
+                raise Undefined("label with add/omit conflict")
+            r = (e.root, e.bitmap, e.bass)
+        elif e.status in ("N", "X"):
+            r = (-1, e.bitmap, -1)
+        else:
+            raise Undefined("label not encodable")
+        _ENC3[key] = r
+    return r
+
+
+def _prefix8(q):
+    return bitmap_of(q)[:8]
+
+
+def rule_score(rule, R, E):
+    """Comparison of one reference encoding R with one estimate encoding E under `rule`: 1, 0 or -1."""
+    rr, rb, rbass = R
+    er, eb, ebass = E
+    if any(v < 0 for v in rb):
+        return -1                                   # X is ignored by every rule
+    same_root = rr == er
+    same_bass = rbass == ebass
+    if rule == "root":
+        return int(same_root)
+    if rule in ("thirds", "thirds_inv"):
+        ok = same_root and rb[3] == eb[3]
+        return int(ok and (same_bass or rule == "thirds"))
+    if rule in ("triads", "triads_inv"):
+        ok = same_root and rb[:8] == eb[:8]
+        return int(ok and (same_bass or rule == "triads"))
+    if rule in ("tetrads", "tetrads_inv"):
+        ok = same_root and rb == eb
+        return int(ok and (same_bass or rule == "tetrads"))
+    is_n = rr < 0 and not any(rb)
+    if rule in ("majmin", "majmin_inv"):
+        if not (is_n or any(rb[:8] == _prefix8(q) for q in _MAJMIN)):
+            return -1
+        ok = same_root and rb[:8] == eb[:8]
+        return int(ok and (same_bass or rule == "majmin"))
+    if rule in ("sevenths", "sevenths_inv"):
+        if not (is_n or any(rb == bitmap_of(q) for q in _SEVENTHS)):
+            return -1
+        ok = same_root and rb == eb
+        return int(ok and (same_bass or rule == "sevenths"))
+    if rule == "mirex":
+        n = sum(1 for v in rb if v > 0)
+        if 0 < n < 3:
+            return -1
+        if rr == -1 and er == -1:
+            return 1
+        rp = set((i + rr) % 12 for i in range(12) if rb[i] > 0)
+        if any(v < 0 for v in eb):
+            ep = set(range(12))                     # X estimate: as coded
+        else:
+            ep = set((i + er) % 12 for i in range(12) if eb[i] > 0)
+        return int(len(rp & ep) >= 3)
+    raise KeyError(rule)
+
+
+def in_vocabulary(rule, label):
+    """True iff a reference interval with this label is comparable under `rule` (its self-comparison is not -1)."""
+    R = enc3(label)
+    return rule_score(rule, R, R) != -1
+
+
+def _contiguous(ivs):
+    return all(ivs[i][1] == ivs[i + 1][0] for i in range(len(ivs) - 1)) and all(e > s for s, e in ivs)
+
+
+def adjust_to_span(ivs, labels, t0, t1):
+    """Crop / pad (with N) a gap-free annotation to [t0, t1]."""
+    out = []
+    for (s, e), l in zip(ivs, labels):
+        if e > t0 and s < t1:
+            out.append((max(s, t0), min(e, t1), l))
+    if not out:
+        return [(t0, t1, NO_CHORD)]
+    if out[0][0] > t0:
+        out.insert(0, (t0, out[0][0], NO_CHORD))
+    if out[-1][1] < t1:
+        out.append((out[-1][1], t1, NO_CHORD))
+    return out
+
+
+def merged(pieces):
+    """[(s, e, label)] -> [(s, e)] with consecutive intervals of the same chord fused."""
+    out, prev = [], None
+    for s, e, l in pieces:
+        k = enc3(l, True)
+        if out and k == prev:
+            out[-1] = (out[-1][0], e)
+        else:
+            out.append((s, e))
+            prev = k
+    return out
+
+
+def directional_hamming(a, b):
+    """Harte: sum over intervals of `a` of (length - largest overlap with one interval of `b`), over the span of a."""
+    tot = 0
+    for s, e in a:
+        best = 0
+        for s2, e2 in b:
+            ov = min(e, e2) - max(s, s2)
+            if ov > best:
+                best = ov
+        tot += (e - s) - best
+    return tot / (a[-1][1] - a[0][0])
+
+
+def seg_scores(ref_ivs, est_ivs):
+    """(underseg, overseg, seg) of two gap-free interval lists covering the same span."""
+    if not ref_ivs or not est_ivs or not _contiguous(ref_ivs) or not _contiguous(est_ivs):
+        raise Undefined("segmentation scores need two gap-free annotations")
+    if ref_ivs[0][0] != est_ivs[0][0] or ref_ivs[-1][1] != est_ivs[-1][1]:
+        raise Undefined("segmentation scores need a common span")
+    over = 1 - directional_hamming(ref_ivs, est_ivs)
+    under = 1 - directional_hamming(est_ivs, ref_ivs)
+    return under, over, min(under, over)
+
+
+def weighted_accuracy(comparisons, weights):
+    num = den = 0
+    for c, w in zip(comparisons, weights):
+        if c >= 0:
+            num += c * w
+            den += w
+    if den == 0:
+        return 0                                    # documented convention: nothing comparable -> 0
+    return num / den
+
+
+def evaluate(ref_ivs, ref_labels, est_ivs, est_labels):
+    """The 15 values of chord.evaluate in EVAL_KEYS order."""
+    if not ref_ivs:
+        raise Undefined("empty reference")
+    if not _contiguous(ref_ivs) or (est_ivs and not _contiguous(est_ivs)):
+        raise Undefined("annotation with gaps or overlaps")
+    t0, t1 = ref_ivs[0][0], ref_ivs[-1][1]
+    est = adjust_to_span(est_ivs, est_labels, t0, t1)
+    ref = [(s, e, l) for (s, e), l in zip(ref_ivs, ref_labels)]
+    bounds = sorted(set([t0, t1] + [p[0] for p in ref] + [p[0] for p in est]))
+    pieces = []
+    for u, v in zip(bounds[:-1], bounds[1:]):
+        rl = [l for s, e, l in ref if s <= u < e][0]
+        el = [l for s, e, l in est if s <= u < e][0]
+        pieces.append((v - u, enc3(rl), enc3(el)))
+    out = []
+    for rule in RULE_KEYS:
+        out.append(weighted_accuracy([rule_score(rule, R, E) for _, R, E in pieces], [w for w, _, _ in pieces]))
+    out.extend(seg_scores(merged(ref), merged(est)))
+    return tuple(out)
